@@ -947,6 +947,10 @@ def install(B, LenV):
             return ov[full]
         if full in _EXT_CONST:
             return _EXT_CONST[full]
+        if full == "inspect.Parameter":
+            return _param_class(self)
+        if full == "inspect._empty":
+            return _PARAM_EMPTY
         h = _EXT_FUNCS.get(full)
         if h is not None:
             b_ = Builtin(full, lambda I, *a, _h=h, **k: _h(self, I, *a, **k))
@@ -1578,6 +1582,54 @@ def _ordered_dict(B, I, *a, **k):
     return B.b_dict(I, *a, **k)
 
 
+_PARAM_KINDS = {"POSITIONAL_ONLY": 0, "POSITIONAL_OR_KEYWORD": 1, "VAR_POSITIONAL": 2, "KEYWORD_ONLY": 3, "VAR_KEYWORD": 4}
+_PARAM_EMPTY = Tok(7001, "inspect.Parameter.empty")
+
+
+def _param_class(B):
+    key = "extobj:inspect.Parameter"
+    if key not in B.ext_mods:
+        B.ext_mods[key] = ExtV("inspect.Parameter", attrs=dict(_PARAM_KINDS, empty=_PARAM_EMPTY))
+    return B.ext_mods[key]
+
+
+def _inspect_signature(B, I, f, **kw):
+    """inspect.signature of an interpreted function / lambda / bound method / callable object; a scripted harness callable is
+    `(*args, **kwargs)`; anything else has no modelled signature"""
+    drop = 0
+    if isinstance(f, Bound):
+        f, drop = f.func, 1
+    if isinstance(f, Obj):
+        c, owner = f.cls.lookup("__call__")
+        if c is None or not isinstance(c, Func):
+            raise Raised(B.mkexc("TypeError", "object is not callable"))
+        f, drop = c, 1
+    params = []
+
+    def add(name, kind, default=_PARAM_EMPTY):
+        params.append(ExtV("inspect.Parameter", attrs=dict(_PARAM_KINDS, empty=_PARAM_EMPTY, name=name, kind=_PARAM_KINDS[kind], default=default, annotation=_PARAM_EMPTY)))
+    if isinstance(f, Callback):
+        add("args", "VAR_POSITIONAL")
+        add("kwargs", "VAR_KEYWORD")
+    elif isinstance(f, Func):
+        a = f.node.args
+        pos = list(a.posonlyargs) + list(a.args)
+        nd = len(f.defaults)
+        for i, p_ in enumerate(pos):
+            d = f.defaults[i - (len(pos) - nd)] if i >= len(pos) - nd else _PARAM_EMPTY
+            add(p_.arg, "POSITIONAL_ONLY" if i < len(a.posonlyargs) else "POSITIONAL_OR_KEYWORD", d)
+        if a.vararg:
+            add(a.vararg.arg, "VAR_POSITIONAL")
+        for p_ in a.kwonlyargs:
+            add(p_.arg, "KEYWORD_ONLY", f.kwdefaults.get(p_.arg, _PARAM_EMPTY))
+        if a.kwarg:
+            add(a.kwarg.arg, "VAR_KEYWORD")
+        params = params[drop:] if drop and params and params[0].attrs["kind"] in (0, 1) else params
+    else:
+        raise Unknown("inspect.signature of a callable that is not modelled")
+    return ExtV("inspect.Signature", attrs={"parameters": DictV([[p_.attrs["name"], p_] for p_ in params]), "return_annotation": _PARAM_EMPTY, "empty": _PARAM_EMPTY})
+
+
 def _warnings_warn(B, I, message=None, category=None, stacklevel=1, source=None, **kw):
     """warnings.warn: nothing observable under the default filters (the text goes to stderr); under `-W error` the category is raised"""
     from . import ae as _ae
@@ -1593,6 +1645,7 @@ def _warnings_warn(B, I, message=None, category=None, stacklevel=1, source=None,
 
 _EXT_FUNCS = {
     "warnings.warn": _warnings_warn,
+    "inspect.signature": _inspect_signature,
     "uuid.uuid4": _uuid4,
     "json.dumps": _json_dumps,
     "copy.copy": _copy_copy,
